@@ -9,9 +9,10 @@ from harness import parse_common as PC
 from harness.driver import Driver, DriverError
 
 PID = 'C02'
-THEOREMS = ['PyDBML.C02.flags_table_roundtrip_partial', 'PyDBML.C02.form_roundtrip', 'PyDBML.C02.settings_ok', 'PyDBML.C02.refs_roundtrip_partial', 'PyDBML.C02.renderDb_tables_refs', 'PyDBML.C02.tables_roundtrip_partial', 'PyDBML.C02.enum_roundtrip_partial', 'PyDBML.C02.renderDb_tables', 'PyDBML.C02.table_roundtrip_partial', 'PyDBML.C02.sticky_roundtrip_partial', 'PyDBML.C02.renderDb_table', 'PyDBML.C02.renderDb_sticky',
+THEOREMS = ['PyDBML.C02.flags_refs_roundtrip_partial', 'PyDBML.C02.flags_tables_roundtrip_partial', 'PyDBML.C02.form_refs_roundtrip', 'PyDBML.C02.form_tables_roundtrip',
+            'PyDBML.C02.flags_table_roundtrip_partial', 'PyDBML.C02.form_roundtrip', 'PyDBML.C02.settings_ok', 'PyDBML.C02.refs_roundtrip_partial', 'PyDBML.C02.renderDb_tables_refs', 'PyDBML.C02.tables_roundtrip_partial', 'PyDBML.C02.enum_roundtrip_partial', 'PyDBML.C02.renderDb_tables', 'PyDBML.C02.table_roundtrip_partial', 'PyDBML.C02.sticky_roundtrip_partial', 'PyDBML.C02.renderDb_table', 'PyDBML.C02.renderDb_sticky',
             'PyDBML.C02.tableRule_ok', 'PyDBML.C02.many_body', 'PyDBML.C02.stickyNoteRule_ok']
-MODULES = ['PyDBMLProofs.Props.C02Sticky', 'PyDBMLProofs.Props.C02Table', 'PyDBMLProofs.Props.C02Tables', 'PyDBMLProofs.Props.C02Enum', 'PyDBMLProofs.Props.C02Refs', 'PyDBMLProofs.Props.C02Form', 'PyDBMLProofs.Props.C02Flags']
+MODULES = ['PyDBMLProofs.Props.C02Sticky', 'PyDBMLProofs.Props.C02Table', 'PyDBMLProofs.Props.C02Tables', 'PyDBMLProofs.Props.C02Enum', 'PyDBMLProofs.Props.C02Refs', 'PyDBMLProofs.Props.C02Form', 'PyDBMLProofs.Props.C02Flags', 'PyDBMLProofs.Props.C02FormTables', 'PyDBMLProofs.Props.C02FormRefs', 'PyDBMLProofs.Props.C02FlagsTables']
 
 
 def canonical_ref_order(spec):
@@ -333,7 +334,12 @@ def main(tier, seed):
         rule='databases from three sources: parsed from spelled documents, built through the public classes from Expressible '
              'values, and wild API-built ones (named reasons outside Expressible), plus the corpus; each rendered, re-parsed, '
              're-rendered twice. Non-trivial: >=1 table and >=2 features; distinct by content hash',
-        explanation='Theorem flags_table_roundtrip_partial (one table whose columns carry ANY SUBSET of the settings pk, increment, unique, '
+        explanation='Theorem flags_refs_roundtrip_partial (C02FlagsTables.lean): ANY positive number of tables with pairwise different names, each with any '
+                    'positive number of columns carrying any subset of pk / increment / unique / not null, possibly a one-line note and (switch on) any '
+                    'number of properties, FOLLOWED BY any positive number of pairwise different standalone single-column references between their '
+                    'columns, round-trips exactly (tables, columns, settings, notes, properties, references resolved by name back to the positions they '
+                    'were written from); an instance of form_refs_roundtrip / form_tables_roundtrip, which are generic in the form of the column lines. '
+                    'Theorem flags_table_roundtrip_partial (one table whose columns carry ANY SUBSET of the settings pk, increment, unique, '
                     'not null, possibly a one-line note and (switch on) any number of properties key: \'value\' round-trips, with the properties switch on or off: the settings list goes through column_settings / '
                     'column_settings_with_properties, parse_column_settings, ColumnBlueprint.build and render_column; it is an instance of '
                     'form_roundtrip, which carries any column FORM that is read back through the table rule, the document, the build and '
